@@ -405,7 +405,9 @@ inductive Sym
   | junk (onCurve : Bool)
   /-- `sk_signer · H(d)` -/
   | share (signer : Id) (d : Data)
-  /-- Lagrange combination of the listed entries at 0 -/
+  /-- the group signature `sk · H(d)` -/
+  | group (d : Data)
+  /-- a Lagrange combination that is not a group signature (some part is foreign) -/
   | combo (parts : List (Id × Id × Data))
   deriving DecidableEq, Repr
 
@@ -415,9 +417,14 @@ def symParts : List (Id × Sym) → Option (List (Id × Id × Data))
   | (i, .share s d) :: rest => (symParts rest).map (fun ps => (i, s, d) :: ps)
   | _ => none
 
-/-- Ideal threshold BLS over a DKG with `members` and threshold `k`: a share
-verifies exactly under its signer's key for its data; a combination is the
-group signature on `d` exactly when it combines `k` distinct members' own shares on `d`. -/
+/-- `k` distinct members, each contributing its own share on `d`. -/
+def comboIsGroup (k : Nat) (members : List Id) (d : Data) (ps : List (Id × Id × Data)) : Bool :=
+  ps.length == k && ps.all (fun p => p.1 == p.2.1 && p.2.2 == d && members.contains p.1) &&
+    decide ((ps.map (·.1)).Nodup)
+
+/-- Ideal threshold BLS over a DKG with `members` and threshold `k`: a share verifies exactly under
+its signer's key for its data; recovery yields the group signature on `d` exactly when it combines
+`k` distinct members' own shares on `d`. -/
 def symCrypto (k : Nat) (members : List Id) : Crypto Sym where
   isNil s := s == .nil
   isValid s := match s with
@@ -425,13 +432,11 @@ def symCrypto (k : Nat) (members : List Id) : Crypto Sym where
     | .junk b => b
     | _ => true
   verify id d s := s == .share id d
-  verifyGroup d s := match s with
-    | .combo parts =>
-      parts.length == k && parts.all (fun p => p.1 == p.2.1 && p.2.2 == d && members.contains p.1)
-        && (parts.map (·.1)).eraseDups.length == parts.length
-    | _ => false
+  verifyGroup d s := s == .group d
   recover l := match symParts l with
-    | some ps => .combo ps
+    | some ((i, s, d) :: rest) =>
+      if comboIsGroup k members d ((i, s, d) :: rest) then .group d else .combo ((i, s, d) :: rest)
+    | some [] => .combo []
     | none => .junk true
   pick l k := l.take k
 
